@@ -37,4 +37,34 @@ CONTRACTS = {
         loops=[{"invariant": ["forall_keys(lambda k: (k in active) == (k in entrypoint_nodes or any(reaches(nx_graph, entrypoint_nodes[j], k) for j in range(_i))), active)"],
                 "modifies": ["active"]}],
     ),
+    "graph/_helpers.py:sources_of": dict(
+        props=["C08", "C19"],
+        params={"output": STR, "nodes": DICT(STR, OBJ("HyperNode"))},
+        returns=SEQ(STR),
+        raises={},
+        # exactly the names of the nodes that list the output - none missing (a second producer is never overlooked), none foreign
+        ensures=["all(any(n.name == r and output in n.outputs for n in nodes.values()) for r in result)",
+                 "all(output not in n.outputs or n.name in result for n in nodes.values())"],
+        modifies=[],
+    ),
+    IS + "_is_interrupt_produced": dict(
+        props=["C08", "C14"],
+        params={"param": STR, "nodes": DICT(STR, OBJ("HyperNode"))},
+        returns=BOOL,
+        raises={},
+        ensures=["result == any(n.is_interrupt and param in n.outputs for n in nodes.values())"],
+        modifies=[],
+        mustfail="result == any(param in n.outputs for n in nodes.values())",
+    ),
+    "graph/_helpers.py:get_edge_produced_values": dict(
+        props=["C08"],
+        params={"nx_graph": ANY},
+        returns=SET(STR),
+        raises={},
+        # EXACTLY the names carried by data edges: control and ordering edges contribute nothing, no data edge is skipped
+        ensures=["forall_keys(lambda k: (k in result) == any(e[2].get('edge_type') == 'data' and k in list(e[2].get('value_names', [])) for e in nx_graph.edges(data=True)), result)"],
+        modifies=[],
+        call_site="opaque",   # callers use the result as an opaque set of names (their clauses do not look inside the edge view)
+        loops=[{"invariant": ["forall_keys(lambda k: (k in result) == any(e[2].get('edge_type') == 'data' and k in list(e[2].get('value_names', [])) for e in _seq[:_i]), result)"], "modifies": ["result"]}],
+    ),
 }
